@@ -296,6 +296,16 @@ fn c11_slider_unit(ctx: &Ctx, sq: u8, which: u8, seed: u64) {
             let mut extra = 0u64;
             for _ in 0..1 + rng.below(3) { let s = rng.below(64) as u64; if (1 << s) & mask == 0 && s != sq as u64 { extra |= 1 << s; } }
             check(&mut g, &mut l, colour.opposite(), sub | extra, "subset plus extra pieces outside the relevant squares");
+            // blockers of every kind, the enemy king among them: what stands on a square must not matter
+            if sub != 0 {
+                let want = ray_attacks(sq, sub, dirs);
+                let salt = rng.next_u64();
+                match par::guarded(|| lookup_mixed(&mut g, sq, piece, colour, sub, salt)) {
+                    Ok(got) => { l.inc("lookups_with_mixed_blockers_incl_enemy_king"); if got != want { let fresh = lookup_mixed(&mut MoveGenerator::new(), sq, piece, colour, sub, salt); if fresh != want {
+                        ctx.violation(&format!("c11:{}-blocker-kind", name), &format!("{} on {} with occupied squares {:#018x} (first blocker is the enemy king, the others mixed pieces): engine attacks {:#018x}, ray walking gives {:#018x}", name, sq_name(sq), sub, fresh, want), json!({"piece": name, "square": sq_name(sq), "blockers": format!("{:#018x}", sub), "blocker_kinds": "king first, then q/r/b/n/p"})); } } }
+                    Err(msg) => ctx.violation(&format!("c11:panic:{}", par::last_panic_location()), &format!("lookup with mixed blockers panicked: {}", msg), json!({})),
+                }
+            }
             sub = sub.wrapping_sub(mask) & mask;
             if sub == 0 { break; }
         }
@@ -307,6 +317,61 @@ fn c11_slider_unit(ctx: &Ctx, sq: u8, which: u8, seed: u64) {
             let colour = if rng.chance(0.5) { Color::White } else { Color::Black };
             check(&mut g, &mut l, colour, occ, "random occupancy");
             l.inc("queen_samples");
+        }
+    }
+    l.flush(ctx);
+}
+
+/// Like `lookup`, with blockers of mixed kinds: the first blocker (lowest square) is the enemy king, the others
+/// rotate through queen, rook, bishop, knight and (off the back ranks) pawn.
+fn lookup_mixed(g: &mut MoveGenerator, sq: u8, piece: Piece, colour: Color, blockers: u64, salt: u64) -> u64 {
+    let mut b = Board::new();
+    b.put(bb(sq), piece, colour).unwrap();
+    let mut x = blockers & !(1u64 << sq);
+    let mut i = salt;
+    let mut first = true;
+    while x != 0 {
+        let s = x.trailing_zeros() as u8; x &= x - 1;
+        let kind = if first { Piece::King } else { match i % 5 { 0 => Piece::Queen, 1 => Piece::Rook, 2 => Piece::Bishop, 3 => Piece::Knight, _ => if s >= 8 && s < 56 { Piece::Pawn } else { Piece::Knight } } };
+        first = false; i += 1;
+        b.put(bb(s), kind, colour.opposite()).unwrap();
+    }
+    g.get_attack_targets(&b, colour).0
+}
+
+/// Whole boards: colour `c` owns a king and one to three sliders, the other side anything. The attack map of `c`
+/// must contain exactly the ray-walk squares of its sliders and the king's neighbours, except squares its own
+/// pieces stand on (the engine's convention for own-occupied squares is not judged).
+fn c11_boards(ctx: &Ctx, seed: u64, n: usize) {
+    let mut g = MoveGenerator::new();
+    let mut l = Local::default();
+    let mut rng = Rng::new(seed);
+    for _ in 0..n {
+        let mut p = Pos::empty();
+        let c = *rng.pick(&[Col::W, Col::B]);
+        let mut free: Vec<u8> = (0..64u8).collect(); rng.shuffle(&mut free);
+        let mut it = free.into_iter();
+        let ks = it.next().unwrap();
+        p.sq[ks as usize] = Some((c, Pc::K));
+        let mut sliders: Vec<(u8, Pc)> = vec![];
+        for _ in 0..1 + rng.below(3) { let s = it.next().unwrap(); let pc = *rng.pick(&[Pc::R, Pc::B, Pc::Q]); p.sq[s as usize] = Some((c, pc)); sliders.push((s, pc)); }
+        p.sq[it.next().unwrap() as usize] = Some((c.opp(), Pc::K));
+        for _ in 0..2 + rng.below(8) { let s = it.next().unwrap(); let pc = *rng.pick(&[Pc::R, Pc::B, Pc::Q, Pc::N, Pc::P, Pc::R, Pc::Q]); if pc == Pc::P && (s < 8 || s >= 56) { continue; } p.sq[s as usize] = Some((c.opp(), pc)); }
+        let mut occ = 0u64; let mut own = 0u64;
+        for s in 0..64 { if let Some((cc, _)) = p.sq[s] { occ |= 1 << s; if cc == c { own |= 1 << s; } } }
+        let mut want = 0u64;
+        for (s, pc) in &sliders { let dirs: &[(i8, i8)] = match pc { Pc::R => &ROOK_DIRS, Pc::B => &BISHOP_DIRS, _ => &QUEEN_DIRS }; want |= ray_attacks(*s, occ, dirs); }
+        for (df, dr) in QUEEN_DIRS { if let Some(q) = sq_of(file_of(ks) + df, rank_of(ks) + dr) { want |= 1 << q; } }
+        let b = to_engine(&p);
+        let got = match par::guarded(|| g.get_attack_targets(&b, ecol(c)).0) { Ok(v) => v, Err(msg) => { ctx.violation(&format!("c11:panic:{}", par::last_panic_location()), &format!("attack map panicked on {}: {}", p.to_fen(), msg), json!({"fen": p.to_fen()})); continue; } };
+        l.inc("whole_board_attack_maps_compared");
+        l.distinct.push(p.key_hash());
+        if got & !own != want & !own {
+            let fresh = MoveGenerator::new().get_attack_targets(&to_engine(&p), ecol(c)).0;
+            if fresh & !own != want & !own {
+                ctx.violation("c11:sliders-amid-other-pieces", &format!("attack map of {:?} in {} is {:#018x}; ray walking of its sliders (plus the king's neighbours) gives {:#018x} outside its own pieces", c, p.to_fen(), fresh & !own, want & !own),
+                    json!({"fen": p.to_fen(), "colour": format!("{:?}", c), "engine": format!("{:#018x}", fresh), "rays": format!("{:#018x}", want)}));
+            }
         }
     }
     l.flush(ctx);
@@ -349,13 +414,14 @@ pub fn c11(o: &Opts) -> i32 {
     let mut units: Vec<(u8, u8)> = vec![];
     for which in 0..3u8 { for sq in 0..64u8 { units.push((sq, which)); } }
     units.push((255, 255));
+    for k in 0..16u8 { units.push((254, k)); }
     // construction itself must not panic (index out of bounds on a bad multiplier/shift/offset)
     if let Err(msg) = par::guarded(|| { let _ = MoveGenerator::new(); }) {
         ctx.violation(&format!("c11:panic:{}", par::last_panic_location()), &format!("table construction panicked: {}", msg), json!({}));
         return ctx.finish(1, "table construction", &[], &[]);
     }
     par::for_each(&units, par::threads(), |i, (sq, which)| {
-        if *sq == 255 { c11_leapers(&ctx, o.seed) } else { c11_slider_unit(&ctx, *sq, *which, o.seed ^ (i as u64) << 12) }
+        if *sq == 255 { c11_leapers(&ctx, o.seed) } else if *sq == 254 { c11_boards(&ctx, o.seed ^ (*which as u64) << 30, 4000) } else { c11_slider_unit(&ctx, *sq, *which, o.seed ^ (i as u64) << 12) }
     }, |_i, u, msg| ctx.violation(&format!("c11:panic:{}", par::last_panic_location()), &format!("engine panicked in unit {:?}: {}", u, msg), json!({})));
     // the tables must not depend on the rayon pool the generator happens to be constructed in
     for pool in [1usize, 2, 3, 5, 6, 7, 12, 24] {
@@ -378,8 +444,8 @@ pub fn c11(o: &Opts) -> i32 {
     ctx.set_extra("exhaustive_for_this_draw", json!(exhaustive));
     ctx.sample(json!({"piece": "rook", "square": "d4", "blockers": "every one of the 1024 subsets of d2 d3 d5 d6 d7 b4 c4 e4 f4 g4", "expected": "ray walk up to and including the first occupied square"}));
     ctx.sample(json!({"piece": "bishop", "square": "a1", "blockers": "every subset of b2..g7", "extra": "1-3 knights on squares outside the relevant mask"}));
-    ctx.finish(ctx.counter("lookups") + ctx.counter("leaper_lookups"),
-        "for this draw of the magic multipliers: for each of 64 squares, every subset of the relevant blocker squares of a rook (102 400 cases) and a bishop (5 248 cases) is set up as a lone slider plus enemy knights, each also with random extra pieces outside the relevant mask; 320 random occupancies per square for queens; lone knights and kings on all 64 squares, both colours, with and without bystanders; MoveGenerator::get_attack_targets is compared with ray walking / offset lists, disagreements re-asked to a brand-new generator. distinct_nontrivial = distinct (piece, square, occupancy) with at least one blocker on a ray (+ leaper cases)",
+    ctx.finish(ctx.counter("lookups") + ctx.counter("leaper_lookups") + ctx.counter("lookups_with_mixed_blockers_incl_enemy_king") + ctx.counter("whole_board_attack_maps_compared") + ctx.counter("lookups_with_generators_built_in_other_pools"),
+        "for this draw of the magic multipliers: for each of 64 squares, every subset of the relevant blocker squares of a rook (102 400 cases) and a bishop (5 248 cases) is set up as a lone slider plus enemy knights, each also with random extra pieces outside the relevant mask; 320 random occupancies per square for queens; lone knights and kings on all 64 squares, both colours, with and without bystanders; every non-empty subset again with blockers of mixed kinds (enemy king first, then queen/rook/bishop/knight/pawn); 64 000 whole boards in which the colour owns its king and 1-3 sliders amid enemy pieces (pins, checks); generators constructed inside rayon pools of 1-24 threads; MoveGenerator::get_attack_targets is compared with ray walking / offset lists, disagreements re-asked to a brand-new generator. distinct_nontrivial = distinct (piece, square, occupancy) with at least one blocker on a ray (+ leaper cases)",
         &["'every build' is sampled by forced re-draws of the build-time tables (see draws in the merged evidence)"],
-        &[("rook_subsets_enumerated", 102_400), ("bishop_subsets_enumerated", 5_248), ("queen_samples", 20_000), ("leaper_lookups", 768)])
+        &[("rook_subsets_enumerated", 102_400), ("bishop_subsets_enumerated", 5_248), ("queen_samples", 20_000), ("leaper_lookups", 768), ("lookups_with_mixed_blockers_incl_enemy_king", 50_000), ("whole_board_attack_maps_compared", 20_000)])
 }
